@@ -75,6 +75,10 @@ type k2Result struct {
 	MapOrderResolved, MapOrderTried int
 	// plan-level tie: the term read back from the emitted code of every generated method against the term of the model's plan
 	SymEqual, SymUnliftable int
+	// settings tie: the Common every method ends up with (command line, converter and method lines through the real
+	// configuration stage) against Gv.Settings.resolve on the same raw lines
+	SettingsCompared, SettingsOutside int
+	SettingsDiffs                     []map[string]any
 	SymDiffs                []map[string]any
 	SymUnliftableSamples    []string
 }
@@ -165,6 +169,49 @@ func runK2(e *env, name string, batches []*k2Batch) (*k2Result, error) {
 				failNode.Add(sx.H("f", sx.S(f[0]), sx.S(f[1])))
 			}
 			lines = append(lines, failNode.String())
+			// the settings every method was generated under: the implementation's configuration stage against the model's
+			// (the generator campaigns below take the RESOLVED settings from the implementation, so a change in how lines of
+			// the three levels combine would otherwise be invisible to them)
+			{
+				var sreqs []*sx.Node
+				var simpl []string
+				var sdescr []map[string]any
+				for _, oc := range b.Outcomes {
+					if oc.Conv == nil || (oc.Stage != "ok" && oc.Stage != "generate") {
+						continue
+					}
+					vars := oc.Raw.InterfaceName == ""
+					convLines := append([]string{}, oc.Raw.Converter.Lines...)
+					for _, m := range oc.Conv.Methods {
+						sc := &settingsCase{Vars: vars, CLI: kb.Global, Conv: convLines, Meth: oc.Raw.Methods[m.Name].Lines, LoaderOK: true}
+						req := sx.H("resolve", sx.I(len(sreqs)), sx.H("vars", sx.B(vars)), sx.H("iface", sx.S(oc.Raw.InterfaceName)), sx.H("cwd", sx.S(filepath.Join(root, "p"))),
+							sx.H("procwd", sx.S(root)), sx.H("pkg", sx.S(module+"/p")), sx.H("pkgname", sx.S("p")), sx.H("varfile", sx.S("conv.gen.go")),
+							sx.Strs("rxbad", badRegexes(sc)), sx.Strs("cli", sc.CLI), sx.Strs("conv", sc.Conv), sx.Strs("meth", sc.Meth), sx.H("loaderok", sx.B(true)))
+						sreqs = append(sreqs, req)
+						simpl = append(simpl, commonToSx(&m.Common).String())
+						sdescr = append(sdescr, map[string]any{"case": sc, "converter": oc.Raw.InterfaceName, "method": m.Name, "batch": kb.Tag})
+					}
+				}
+				sans, err := drv.Run(sreqs)
+				if err != nil {
+					fail(err)
+					return
+				}
+				mu.Lock()
+				for i, ans := range sans {
+					if ans.Head() != "ok" || len(ans.L) != 3 || len(ans.L[2].L) < 2 {
+						res.SettingsOutside++ // a line the settings model does not read (reported as a count, never as a difference)
+						continue
+					}
+					res.SettingsCompared++
+					if mc := ans.L[2].L[1].String(); mc != simpl[i] {
+						d := sdescr[i]
+						d["implementation"], d["model"] = simpl[i], mc
+						res.SettingsDiffs = append(res.SettingsDiffs, d)
+					}
+				}
+				mu.Unlock()
+			}
 			// generation-stage diagnostics are compared with the model as well
 			var greqs []*sx.Node
 			var gocs []*gvx.ConvOutcome
@@ -380,6 +427,18 @@ func runK2(e *env, name string, batches []*k2Batch) (*k2Result, error) {
 		e.rep.Note("%s: %d failing calls where implementation and model first disagreed and an argument holds a map with several entries (Go's iteration order is unspecified): re-run on the other iteration orders in the model, %d agree under one of them, the others are reported", name, res.MapOrderTried, res.MapOrderResolved)
 	}
 	symReport(e, e.prop+" ("+name+")", res.SymEqual, res.SymUnliftable, res.SymDiffs, res.SymUnliftableSamples)
+	for _, d := range res.SettingsDiffs {
+		d["broken"] = "correspondence " + e.prop + " (settings of a generated method): the Common resolved by the implementation's configuration stage from the command line, converter and method lines differs from Gv.Settings.resolve on the same lines"
+		e.rep.Violation("", d, false)
+	}
+	if res.SettingsCompared+res.SettingsOutside > 0 {
+		e.rep.Eval(res.SettingsCompared)
+		for i := 0; i < res.SettingsCompared; i++ {
+			e.rep.Count("settings-tie.compared")
+		}
+		e.rep.Note("%s: settings tie: the resolved settings of %d generated methods equal Gv.Settings.resolve on their raw lines, %d differ, %d carry a line the settings model does not read (not compared)",
+			name, res.SettingsCompared-len(res.SettingsDiffs), len(res.SettingsDiffs), res.SettingsOutside)
+	}
 	sort.SliceStable(res.Calls, func(i, j int) bool {
 		return res.Calls[i].Converter+res.Calls[i].Batch < res.Calls[j].Converter+res.Calls[j].Batch
 	})
